@@ -42,6 +42,7 @@ APPS = {
     "compress_sel": (lambda it: A.compress([1, 2, 3, 4], it), lambda it: itertools.compress([1, 2, 3, 4], it)),
     "accumulate": (lambda it: A.accumulate(it, _t("a"), initial=_INIT), lambda it: itertools.accumulate(it, _t("a"), initial=_INIT)),
     "zip_longest": (lambda it: A.zip_longest(it, [1]), lambda it: itertools.zip_longest(it, [1])),
+    "zip_longest_same": (lambda it: A.zip_longest(it, it), lambda it: itertools.zip_longest(it, it)),
     "zip_strict3": (lambda it: A.zip([], [1, 2], it, strict=True), lambda it: zip([], [1, 2], it, strict=True)),
     "merge1": (lambda it: A.merge(it), lambda it: heapq.merge(it)),
     "merge2": (lambda it: A.merge(it, _OTHER), lambda it: heapq.merge(it, _OTHER)),
